@@ -100,7 +100,7 @@ def run_case(case, ctx):
     ttm = M is not None
     modes = [a * b for a, b in zip(M, N)] if ttm else N
     # memory layout of the base point: contiguous cores, cores that are permuted views (rank and mode dims not mergeable), or (operators) the result of t()
-    layout = ['contiguous', 'permuted-views', 'via-t()', 'via-TT-SVD', 'via-round'][case['seed'] % 5]
+    layout = ['contiguous', 'permuted-views', 'via-t()', 'via-TT-SVD', 'via-round', 'via-TT-SVD-rescaled'][case['seed'] % 6]
     tol = TOL
     if case.get('ill'):
         layout = 'ill-conditioned'
@@ -120,13 +120,17 @@ def run_case(case, ctx):
         x = torchtt.TT(cs)
     elif layout == 'via-t()' and ttm:
         x = ctx.call('t', lambda a: a.t(), gens.make_tt(M, R, dt, 'gauss', g, M=N))
-    elif layout in ('via-TT-SVD', 'via-round'):
+    elif layout in ('via-TT-SVD', 'via-round', 'via-TT-SVD-rescaled'):
         # the base point is handed out by the library itself (numpy-integer rank list, non-contiguous cores, orthogonal gauge)
         x0_ = gens.make_tt(N, R, dt, 'gauss', g, M=M)
         if layout == 'via-round':
             x = ctx.call('round', lambda a: a.round(1e-15), x0_)
         else:
             x = ctx.call('TT(dense)', lambda a: torchtt.TT(a.full(), [(m, n) for m, n in zip(M, N)], eps=1e-14) if ttm else torchtt.TT(a.full(), eps=1e-14), x0_)
+        if layout == 'via-TT-SVD-rescaled' and isinstance(x, torchtt.TT):
+            # a TT-SVD output (orthonormal frames) times a scalar within 5e-6 of one: the frames are now ALMOST orthonormal (x*(1+delta), x/(1-delta) - what x/x.norm() gives after a loose truncation)
+            fac = [1.0 + 1e-6, 1.0 - 2e-6, 1.0 + 3e-7, 1.0 / (1.0 - 2e-6)][(case['seed'] // 6) % 4]
+            x = ctx.call('TT*scalar', lambda a: a * fac, x)
         if not isinstance(x, torchtt.TT) or [int(r) for r in x.R] != list(R):
             ctx.count('rejected:provenance-changed-ranks')
             return
